@@ -116,9 +116,11 @@ def main():
         for app in ('abstract', 'real'):
             for reqs in ('GET /a HTTP/1.1\r\nHost: x\r\n\r\n', 'GET / HTTP/1.1\r\n\r\n', 'BAD\r\n\r\n', 'GET /a HTTP/1.1\r\nRange: bytes=0-0\r\n\r\n', 'POST /form-url-encoded-enctype-post-method HTTP/1.1\r\n\r\na=b'):
                 cases.append(dict(ob='skeleton', entry=entry, app=app, request=reqs))
+    # the job logs the request before answering: long header values (a log line must not cost the worker)
+    for n in (255, 256, 257, 258): cases.append(dict(ob='log', hv_len=n, where='request'))
     chk.run_cases(C04.case, cases, label='connection job (Server::process) under transport/application faults')
     chk.violations = [dict(v, key=v['key'].replace('C04:', 'C06:job-')) for v in chk.violations]
-    chk.bounds = {'accept loop connections': bound, 'requests in the job obligation': [c['request'] for c in cases[:5]], 'pool': 'N=2 (3), one or two panicking tasks'}
+    chk.bounds = {'accept loop connections': bound, 'requests in the job obligation': [c['request'] for c in cases[:5] if 'request' in c], 'pool': 'N=2 (3), one or two panicking tasks'}
 
     def replay(v):
         w_ = v['witness']
@@ -134,7 +136,7 @@ def main():
             # middle of a request, immediate close), then a well-formed probe
             st, out = chk.oracle.run([('job_reset', [])], timeout=30)[0]
             return {'reproduced': st == 'ok' and out and out[0] == b'dead', 'native': (st, [x.decode('latin1') for x in out])}
-        if w_['kind'] == 'skeleton':
+        if w_['kind'] in ('skeleton', 'log-header', 'log'):
             return C04.replay_native(chk, v)
         return {'reproduced': False}
     chk.finish(replay_fn=replay)
